@@ -37,6 +37,9 @@ CHECKS = {
  "C15": ("metamorphic and oracle checks on solved splines: data / end-condition reproduction (also through the independent basis oracle on the returned coefficients), polynomial reproduction, linearity in the data against unit-vector splines, chain rule for Dual / Dual2 abscissae, error paths, 3x3 type table",
          "Runtime oracle over 10^3..10^5 generated (order, knots, site layout, data) combinations, collocation matrices pre-screened for conditioning.",
          "DESIGN.md 3/C15", TRUST),
+ "C16": ("seeded hostile objects of every serialisable kind through serde_json, the tagged from_json container and bincode, compared by the type's == and bit-for-bit field / query comparison",
+         "Runtime oracle over 10^4..10^5 generated objects with random finite bit patterns, sub-normals, extreme exponents, hostile names and non-midnight timestamps; three serialisation paths each.",
+         "DESIGN.md 3/C16", TRUST),
  "C17": ("complete enumeration of stored-list x requested-list pairs with a name-keyed lookup oracle; manifold product rule against reference AD",
          "Exhaustive over (stored list, requested list) on a small pool for gradient1/gradient2/gradient1_manifold (exact comparison), sampled for the product-rule identity.",
          "DESIGN.md 3/C17", TRUST),
@@ -58,6 +61,9 @@ CHECKS = {
  "C08": ("add_months(Act) against own civil arithmetic for every start date x offset x roll kind; helper functions for every month; adjusting modifiers against the C04 oracle",
          "Thorough tier enumerates every start date 1970-2200 x 83 offsets x 35 roll kinds (2.4*10^8 calls); quick samples 3*10^5 plus a boundary set.",
          "DESIGN.md 3/C08", TRUST),
+ "C20": ("catch_unwind + shape-invariant checker around every fallible entry point under boundary / random arguments, full i8 sweeps of the date arithmetic and structural JSON mutation; worker processes with breadcrumbs observe aborts",
+         "Runtime fault-style exploration: 5*10^5 (quick) .. 10^7 (thorough) calls incl. 6*10^4 .. 5*10^6 mutated JSON documents of every kind through per-type and tagged entry points; every Ok is checked against the constructors' invariants and an independent validity oracle.",
+         "DESIGN.md 3/C20", TRUST),
  "C07": ("exhaustive sweep of 14 names x 84371 dates against an independent holiday-rules engine + fixing-file back-tests",
          "Exhaustive runtime comparison over the complete finite domain (every date 1970-2200 of every built-in calendar) with a hand-transcribed rule engine, plus the 9 shipped fixing histories. For the pinned tables the verdict is as strong as the transcription of the published rules.",
          "DESIGN.md 3/C07",
